@@ -7,6 +7,8 @@ set -e
 cd /verif
 ./bin/kmcheck -dump pinned > /tmp/pinned_funcs.$$.json
 ./bin/kmcheck -dump pinnedfields > /tmp/pinned_fields.$$.json
+./bin/kmcheck -dump pinnedtypes > /tmp/pinned_types.$$.json
+mv /tmp/pinned_types.$$.json checker/internal/km/pinned_types.json
 mv /tmp/pinned_funcs.$$.json checker/internal/km/pinned_funcs.json
 mv /tmp/pinned_fields.$$.json checker/internal/km/pinned_fields.json
 ./scripts/build.sh
